@@ -494,7 +494,15 @@ def run(ctx):
             case = {"K": Kf, "fitted_on_points": n0, "labels": lab0}
             with ctx.guard("phases on a fitted state", case):
                 st1 = _cm.update_all_cluster_statistics(st0, d_fit)
-                st2 = _gl._retrieve_optimization_results(st1, [FakeTask(theta_for(j % 7, k, 2)) for k in range(Kf)])
+                # the optimiser's answers: positive definite ones and - every third case - what a large covariance floor can leave
+                # behind, a symmetric matrix that is invertible but indefinite (the labelling step must cope with it without
+                # repairing it in the state it was given)
+                def answer(k):
+                    if j % 3 == 2 and k == Kf - 1:
+                        from fast_ticc import matrix_compression as _mc
+                        return _mc.compress_matrix(np.array([[1.0, 2.0 + 0.25 * k], [2.0 + 0.25 * k, 1.0]]))
+                    return theta_for(j % 7, k, 2)
+                st2 = _gl._retrieve_optimization_results(st1, [FakeTask(answer(k)) for k in range(Kf)])
                 for delta in (0, 7, -6, 1, -1)[: (5 if ctx.thorough else 3 + j % 3)]:
                     n1 = n0 + delta
                     d_new = d_fit[:n1] if delta <= 0 else np.vstack([d_fit, data_rng.normal(size=(delta, 2))])
@@ -523,6 +531,11 @@ def run(ctx):
                     ctx.mark_nontrivial(("rol", j, delta))
         # traced runs: invariant + frame at every phase boundary
         runs = e2e.cached_runs(ctx, e2e.standard_grid(ctx.seed, ctx.thorough), "std")
+        # large covariance floors (a legal, documented argument): thresholding can leave a fitted MRF indefinite or singular; whatever
+        # a phase does about that, it must not be done to the state it was given
+        runs += e2e.cached_runs(ctx, [{"N": [1, 2, 1][j % 3], "W": [3, 3, 4][j % 3], "K": 2 + j % 2, "beta": 2.0, "lam": 0.11, "limit": 3, "m": 2,
+                                       "biased": False, "eps": [0.1, 0.25, 0.05][j % 3], "joint": j % 3 == 1, "lengths": [[80], [50, 45], [90]][j % 3],
+                                       "data_seed": 1300 + j, "rng_seed": 1300 + j, "regimes": 2 + j % 2} for j in range(ctx.budget(4, 9))], "c13floor")
         e2e.traced_run({"N": 1, "W": 2, "K": 2, "beta": 1.0, "lengths": [30], "limit": 2, "m": 1, "data_seed": 1, "rng_seed": 1, "joint": False})
     ctx.coverage["distribution"] = hist
     nb = 0
